@@ -16,7 +16,6 @@ package nebula
 
 import (
 	"encoding/binary"
-	"encoding/json"
 	"fmt"
 	"hash/fnv"
 	"log/slog"
@@ -524,7 +523,8 @@ type VerifOutsideDigest struct {
 	RemoteIdx string
 	RelayIdx  string
 	Pending   string
-	LH        string
+	LH        string // reported addresses and relays per cache entry (what lighthouse messages write)
+	LHLearned string // learned addresses per cache entry (what handshakes and roaming write)
 	Conntrack string
 	RelayUsed string
 }
@@ -638,21 +638,35 @@ func (n *VerifOutsideNode) Digest() VerifOutsideDigest {
 		lists[rl] = append(lists[rl], a.String())
 	}
 	lh.RUnlock()
-	var lhs []string
+	var lhs, lhl []string
 	for rl, keys := range lists {
 		sort.Strings(keys)
 		cm := rl.CopyCache()
-		b, _ := json.Marshal(cm)
+		owners := make([]string, 0, len(*cm))
+		for o := range *cm {
+			owners = append(owners, o)
+		}
+		sort.Strings(owners)
+		var rep, lrn []string
+		for _, o := range owners {
+			c := (*cm)[o]
+			rep = append(rep, fmt.Sprintf("%s:%v/%v", o, c.Reported, c.Relay))
+			lrn = append(lrn, fmt.Sprintf("%s:%v", o, c.Learned))
+		}
 		rl.RLock()
 		rel := make([]string, len(rl.relays))
 		for i, a := range rl.relays {
 			rel[i] = a.String()
 		}
 		rl.RUnlock()
-		lhs = append(lhs, strings.Join(keys, "+")+"="+string(b)+"/"+strings.Join(rel, ","))
+		k := strings.Join(keys, "+")
+		lhs = append(lhs, k+"="+strings.Join(rep, ";")+"/"+strings.Join(rel, ","))
+		lhl = append(lhl, k+"="+strings.Join(lrn, ";"))
 	}
 	sort.Strings(lhs)
+	sort.Strings(lhl)
 	d.LH = strings.Join(lhs, " ")
+	d.LHLearned = strings.Join(lhl, " ")
 
 	if fw := n.f.firewall; fw != nil && fw.Conntrack != nil {
 		fw.Conntrack.Lock()
@@ -670,3 +684,63 @@ func (n *VerifOutsideNode) Digest() VerifOutsideDigest {
 	d.RelayUsed = strings.Join(ru, " ")
 	return d
 }
+
+// ---- read-only queries the harness uses to name the features of a packet ------------------------------------
+
+// Resolve reports what a header index resolves to at this node: a tunnel (HostMap.Indexes, with a ConnectionState),
+// a relay index (HostMap.Relays) and a reverse index (HostMap.RemoteIndexes).
+func (n *VerifOutsideNode) Resolve(idx uint32) (tunnel, relay, reverse bool) {
+	if hi := n.f.hostMap.QueryIndex(idx); hi != nil && hi.ConnectionState != nil {
+		tunnel = true
+	}
+	if hi := n.f.hostMap.QueryRelayIndex(idx); hi != nil && hi.ConnectionState != nil {
+		relay = true
+	}
+	if hi := n.f.hostMap.QueryReverseIndex(idx); hi != nil {
+		reverse = true
+	}
+	return
+}
+
+// ReverseTunnel returns the tunnel a recv_error carrying idx would be about.
+func (n *VerifOutsideNode) ReverseTunnel(idx uint32) (VerifOutsideTunnel, bool) {
+	hi := n.f.hostMap.QueryReverseIndex(idx)
+	if hi == nil {
+		return VerifOutsideTunnel{}, false
+	}
+	return n.tunnelOf(hi), true
+}
+
+// RelayOwner returns the tunnel that owns a relay index.
+func (n *VerifOutsideNode) RelayOwner(idx uint32) (VerifOutsideTunnel, bool) {
+	hi := n.f.hostMap.QueryRelayIndex(idx)
+	if hi == nil {
+		return VerifOutsideTunnel{}, false
+	}
+	return n.tunnelOf(hi), true
+}
+
+// WindowCheck is the real, read-only Bits.Check of the tunnel's replay window (for a relay index: of its owner).
+func (n *VerifOutsideNode) WindowCheck(idx uint32, relayIndex bool, counter uint64) bool {
+	var hi *HostInfo
+	if relayIndex {
+		hi = n.f.hostMap.QueryRelayIndex(idx)
+	} else {
+		hi = n.f.hostMap.QueryIndex(idx)
+	}
+	if hi == nil || hi.ConnectionState == nil {
+		return false
+	}
+	cs := hi.ConnectionState
+	cs.decryptLock.Lock()
+	defer cs.decryptLock.Unlock()
+	return cs.window.Check(n.f.l, counter)
+}
+
+// RecvErrorPermits evaluates the node's listen.send_recv_error / accept_recv_error settings for an endpoint.
+func (n *VerifOutsideNode) RecvErrorPermits(src netip.AddrPort) (send, accept bool) {
+	return n.f.sendRecvErrorConfig.ShouldRecvError(src), n.f.acceptRecvErrorConfig.ShouldRecvError(src)
+}
+
+// InMyNetworks: the underlay source lies inside this node's overlay networks ("double encrypted" refusal).
+func (n *VerifOutsideNode) InMyNetworks(a netip.Addr) bool { return n.f.myVpnNetworksTable.Contains(a) }
